@@ -334,14 +334,6 @@ Definition no_loss (f0 f1 : fs) : bool :=
 Definition on_disk (x : string) (f : fs) : bool :=
   existsb (fun e => match snd e with File y => ceqb x y | Dir => false end) f.
 
-(* the rules in force are the user's: the CSV text itself or its complete conversion *)
-Definition users (c0 : string) (r : inforce) : bool :=
-  match r with
-  | ICsv c => ceqb c c0
-  | INew c => ceqb c (conv O c0)
-  | _ => false
-  end.
-
 (* the budget loads and classifies with an empty rule set *)
 Definition empty_inforce (r : inforce) : bool :=
   match r with
@@ -350,6 +342,15 @@ Definition empty_inforce (r : inforce) : bool :=
   | ICsv c => negb (nonempty O c)
   | INew c => negb (nonempty_new O c)
   end.
+
+(* the rules in force are the user's: the CSV text itself or its complete conversion (or, when the
+   user's CSV holds no rule at all, any empty rule set) *)
+Definition users (c0 : string) (r : inforce) : bool :=
+  match r with
+  | ICsv c => ceqb c c0
+  | INew c => ceqb c (conv O c0)
+  | _ => false
+  end || (negb (nonempty O c0) && empty_inforce r).
 
 (* ... while the user's rules (CSV text or complete conversion, holding at least one rule) are
    still on disk *)
